@@ -49,7 +49,7 @@ def rules_case(draw):
     rs = [dict(r) for r in rf['rules']]
     # inject wild expressions
     for _ in range(draw(st.integers(1, 4))):
-        where = draw(st.sampled_from(['match', 'match', 'let', 'field', 'tag', 'var', 'transform', 'newrule', 'shadow_fail']))
+        where = draw(st.sampled_from(['match', 'match', 'let', 'field', 'tag', 'var', 'transform', 'newrule', 'shadow_fail', 'shared_let']))
         w = draw(lang.wild_expr(2))
         if where == 'shadow_fail':
             # rule A binds (by let) a name that a LATER let-free rule B reads as a top-level variable / data source / primitive, and A's own match fails for the item:
@@ -67,6 +67,22 @@ def rules_case(draw):
             if name in ('threshold', 'is_large', 'label') and not any(v[0] == name for v in rf['vars']):
                 gv = {'threshold': ['num', 50], 'is_large': ['cmp', ['name', 'amount'], [['>', ['num', 100]]]], 'label': ['name', 'description']}[name]
                 rf = dict(rf, vars=list(rf['vars']) + [[name, gv]])
+            continue
+        if where == 'shared_let':
+            # two rules carry the textually SAME let; in the earlier rule it cannot be evaluated (it reads a name only the later rule binds first),
+            # so the earlier rule simply does not apply - the later rule's own evaluation of the same text must be unaffected
+            key_src = draw(st.sampled_from([['txn', 'amount'], ['num', 9.99], ['name', 'description']]))
+            shared = draw(st.sampled_from([
+                ['hits', ['listcomp', ['name', 'r'], 'r', ['name', 'orders'], ['cmp', ['attr', 'r', 'amount'], [['==', ['var', 'key']]]]]],
+                ['hits', ['bin', '+', ['var', 'key'], ['num', 1]]],
+                ['hits', ['call', 'trim', [['var', 'key']]]],
+                ['hits', ['if', ['cmp', ['var', 'key'], [['==', ['var', 'key']]]], ['str', 'yes'], ['str', 'no']]]]))
+            use = draw(st.sampled_from([['cmp', ['var', 'hits'], [['!=', ['str', 'zzz']]]], ['cmp', ['len', ['var', 'hits']], [['>=', ['num', 0]]]], ['exists', ['var', 'hits']]]))
+            a = {'name': 'Forgot Key', 'match': use, 'category': 'ForgotCat', 'subcategory': '', 'merchant': None, 'priority': None, 'tags': ['forgot'], 'lets': [shared], 'fields': []}
+            b_ = {'name': 'Has Key', 'match': use, 'category': 'KeyCat', 'subcategory': '', 'merchant': None, 'priority': None, 'tags': ['haskey', ['dyn', ['var', 'hits']]],
+                  'lets': [['key', key_src], shared], 'fields': [['wf', ['var', 'hits']]]}
+            pos = draw(st.integers(0, len(rs)))
+            rs[pos:pos] = [a, b_]
             continue
         if where == 'newrule' or not rs:
             rs.insert(draw(st.integers(0, len(rs))), {'name': 'Wild', 'match': w, 'category': draw(st.sampled_from(['', 'WildCat'])), 'subcategory': '',
